@@ -11,7 +11,9 @@
    Tree level (sieve/RenderFacts.v, sieve/PrintTree.v), for every script derivable in the grammar wf_cmds of
    CompleteTree whose tree is in CANONICAL FORM [canon_cmd] — command names spelled as in their definitions,
    arguments written in definition order with each optional slot at most once, values that are quoted
-   strings, numbers, tags or non-empty lists of quoted strings (no `text:` blocks):
+   strings, multi-line (`text:`) strings, numbers, tags or non-empty lists of quoted strings.  A multi-line
+   string ends with its own line feed, which the layout carries into the white space before the next token
+   ([carry_of], [args_carry], [tcarry]) exactly as Command.tosieve does:
      (d) the lexer inverts rendering: well-formed tokens written with any white space between them (none where
          two tokens cannot merge) are lexed back as exactly those tokens (C04_lex_render);
      (e) the text the model of Command.tosieve prints for such a tree IS the layout of the script's tokens
@@ -29,8 +31,8 @@
          same text (C04_print_parse_general).  Table conditions [tbl_ok] (names consistent and identifiers,
          argument names distinct, no slot taking both numbers and strings) are re-checked by computation on
          the tables regenerated from /repo.
-   Not proved: multi-line (`text:`) values in the printing theorems, the commands outside wf_def (known
-   findings).  The printer model is tied to commands.py by comparing the printed text of every accepted
+   Not proved: the commands outside wf_def (known findings); a multi-line string inside a string LIST
+   (the lexer accepts it there, the grammar of CompleteTree does not generate it).  The printer model is tied to commands.py by comparing the printed text of every accepted
    input, and the round trip itself (print, re-parse, compare trees as maps, print again, compare text) is
    evaluated on the implementation over enumerations, generated
    scripts, layouts, mutants, repeated tags and a quoting-edge value generator. *)
@@ -192,6 +194,16 @@ Theorem C04_example_general :
     Forall2 nsim ns' ns /\ tosieve_all 5 ns' = tosieve_all 5 ns.
 Proof. exact PrintExamples.ex2_roundtrip. Qed.
 Print Assumptions C04_example_general.
+
+(* non-vacuity: a script whose value is a `text:` block (the line feed after the block is carried into the layout) *)
+Theorem C04_example_multiline :
+  forall (ns : list node) (L' : list bytes),
+  wf_cmds gen_tables [] None ex_ml_script ns L' ->
+  exists ns' : list node,
+    parse gen_tables (tosieve_all 3 ns) = Accept ns' /\
+    Forall2 nsim ns' ns /\ tosieve_all 3 ns' = tosieve_all 3 ns.
+Proof. exact PrintExamples.ex_ml_roundtrip. Qed.
+Print Assumptions C04_example_multiline.
 
 (* non-vacuity on the tables generated from /repo: the tree of the example script (require, if/elsif/else, anyof, not, nested blocks, tags with parameters, numbers, lists) is canonical *)
 Theorem C04_example_canonical :
